@@ -495,11 +495,14 @@ func (n *Nodis) ZUnion(keys []string, weights []float64, aggregate string) []*zs
 func (n *Nodis) ZUnionStore(destination string, keys []string, weights []float64, aggregate string) int64 {
 	var v int64
 	_ = n.exec(func(tx *Tx) error {
+		// the union is computed before the destination is locked and created: a destination
+		// that is also an operand no longer deadlocks, and an operand of the wrong type fails
+		// the command before the destination exists
+		items := n.ZUnion(keys, weights, aggregate)
 		meta := tx.writeKey(destination, n.newZSet)
 		if !meta.isOk() {
 			return nil
 		}
-		items := n.ZUnion(keys, weights, aggregate)
 		if len(items) == 0 {
 			// an empty result: the destination ceases to exist
 			tx.delKey(destination)
